@@ -358,9 +358,9 @@ def r7_handover(cx):
     pa = Prov(m, "alias")
     pv = Prov(m, "value")
     for name, src_pat, required, allowed, what in (
-        ("review", r"Task::outputs$", [], [r"^Task::is_event_processed=False$"],
+        ("review", r"Task::outputs$", [], [r"^Task::is_event_processed=False$", r"^match\(.*branch.*\)=Continue$"],
          "the reviewing task takes over the outputs of the task that just ended (`self.update_data(&ctx.task().outputs())`), whatever state that task ended in"),
-        ("next", r"Context::vars$", [r"^TaskState::is_completed=True$"], [],
+        ("next", r"Context::vars$", [r"^TaskState::is_completed=True$"], [r"^match\(.*branch.*\)=Continue$"],
          "a task that has ended writes the values of its context into its data and the enclosing scopes (`self.update_data(&ctx.vars())`) - for every terminal state"),
     ):
         f = m.one(ARC_TASK_IMPL + name + "$")
